@@ -57,12 +57,14 @@ _KEY_NAMES = None
 class RustMachine:
     impl = "rs"
 
-    def __init__(self, vh, name="m", kb_irq=True):
+    def __init__(self, vh, name="m", kb_irq=True, press_th=None):
         self.vh = vh
         self.name = name
         self.kb_irq = kb_irq          # False: the non-default "keyboard interrupts disabled" configuration of the runtime
         vh.call("rt.new", name=name, cfg={"regs": {"PC": MAIN, "S": STACK, "U": STACK - 0x100}, "rom_overlays": [[0xFFFFA, VECTOR_BYTES]],
                                           "loads": [[VEC, [0x00]]], "timer": {"enabled": False, "pm": 0, "ps": 0, "kb_irq_enabled": kb_irq}})
+        if press_th is not None:
+            vh.call("rt.kbd_cfg", name=name, press_th=int(press_th))
 
     def pc(self):
         return self.vh.call("rt.obs", name=self.name)["pc"]
@@ -90,7 +92,7 @@ class RustMachine:
 class PyMachine:
     impl = "py"
 
-    def __init__(self):
+    def __init__(self, kb_irq=True, press_th=None):
         from pce500.emulator import PCE500Emulator
         rom = bytearray(0x40000)
         rom[0x3FFFA:0x3FFFD] = bytes(VECTOR_BYTES)
@@ -108,6 +110,20 @@ class PyMachine:
         self.emu._scheduler.mti_period = 0
         self.emu._scheduler.sti_period = 0
         self.emu._scheduler.reset(cycle_base=0)
+        self.kb_irq = kb_irq
+        self.emu._kb_irq_enabled = bool(kb_irq)     # the machine's own switch (also a snapshot member)
+        # every event the matrix queues is noted as it is queued: the Python machine may queue and drain an event within one step
+        # (its KIL / ISR handlers consume the queue), so the queue contents before and after a step do not show every event
+        self.kev = []
+        mx = self.emu.keyboard._matrix
+        _enq = mx._enqueue_event
+
+        def _noted(event, _enq=_enq):
+            self.kev.append(int(event.to_byte()) & 0xFF)
+            return _enq(event)
+        mx._enqueue_event = _noted
+        if press_th is not None:
+            self.emu.keyboard._matrix.press_threshold = max(1, int(press_th))
 
     def pc(self):
         return self.emu.cpu.regs.get(self.R.PC)
@@ -158,11 +174,13 @@ class PyMachine:
                 "pw": "halt" if getattr(e.cpu.state, "halted", False) else "run", "inint": int(bool(e._in_interrupt)), "pend": int(bool(e._irq_pending)),
                 "tot": int(e.irq_counts.get("total", 0)), "instr": int(e.instruction_count), "cyc": int(e.cycle_count),
                 "src": {"MTI": 0, "STI": 1, "KEY": 2, "ONK": 3}.get(e.last_irq.get("src"), -1),
-                "nm": int(sch.next_mti) if live_m else 0, "ns": int(sch.next_sti) if live_s else 0}
+                "nm": int(sch.next_mti) if live_m else 0, "ns": int(sch.next_sti) if live_s else 0,
+                "kf": [int(b) & 0xFF for b in e.keyboard.fifo_snapshot()], "kl": int(bool(e._key_irq_latched))}
 
     def step_obs(self):
         pre = self.obs()
         err = None
+        self.kev = []
         try:
             self.emu.step()
         except Exception as ex:  # a raising step is reported, not hidden
@@ -170,12 +188,12 @@ class PyMachine:
         post = self.obs()
         s = post["s"]
         frame = [self.emu.memory.read_byte((s + i) & 0xFFFFF) & 0xFF for i in range(5)]
-        return {"pre": pre, "post": post, "frame": frame, "err": err}
+        return {"pre": pre, "post": post, "frame": frame, "err": err, "kev": list(self.kev)}
 
 
 def run_script(m, script: List[Dict[str, Any]], tid: int) -> List[Dict[str, Any]]:
     """script items: {"ev":"Step","ins":{...}} | {"ev":"Timer","s":0|1} | {"ev":"OnKey"} | {"ev":"OnKeyUp"} | {"ev":"TimerCfg",...}"""
-    out = [{"tid": tid, "ev": "Init", "impl": m.impl, "kbirq": int(getattr(m, "kb_irq", True))}]
+    out = [{"tid": tid, "ev": "Init", "impl": m.impl, "kbirq": int(getattr(m, "kb_irq", True)), "cap": 8 if m.impl == "rs" else 7}]
     pending_env: List[Dict[str, Any]] = []
     for a in script:
         if a["ev"] != "Step":
@@ -199,7 +217,11 @@ def run_script(m, script: List[Dict[str, Any]], tid: int) -> List[Dict[str, Any]
                 cfg = [int(e["pm"]), int(e["ps"])]
             elif e["ev"] == "Timer":
                 inj[int(e["s"])] = 1
-        out.append({"tid": tid, "ev": "Step", "kind": ins["k"], "len": len(bs), "vec": VEC, "clr": clr, "env": [e["ev"] for e in pending_env], "cfg": cfg, "inj": inj,
+        rse = 0
+        for bit in (ins.get("m", []) if ins["k"] == "RAISE" else []):
+            rse |= 1 << bit
+        envk = [[int(e["code"]), int(bool(e["press"]))] for e in pending_env if e["ev"] == "Key"]
+        out.append({"tid": tid, "ev": "Step", "kind": ins["k"], "len": len(bs), "vec": VEC, "clr": clr, "rse": rse, "envk": envk, "kev": r.get("kev") if r.get("kev") is not None else [], "kevk": int(r.get("kev") is not None), "env": [e["ev"] for e in pending_env], "cfg": cfg, "inj": inj,
                     "pre": r["pre"], "post": r["post"], "frame": r["frame"], "err": r["err"] or ""})
         pending_env = []
         # keep the handler entry a NOP for the next delivery
